@@ -311,6 +311,10 @@ def check_stage_map(ctx, label, tpl, info, res, seen):
         for g in GLOBALS:
             have = got.get(g[0], 0)
             bad.append((g[0], have != want[g[0]]))
+        if 'pc' in got:
+            # for the push constant "in the map with the empty set" is NOT the same as "not in the map": push_constant_range_stages
+            # falls back to the entry stages only when the name is absent
+            bad.append(('pc', (got['pc'] == 0) if is_sym(got['pc']) else z3.BoolVal(got['pc'] == 0)))
         m = ctx.check(pc, z3.Or([b for _, b in bad]))
         if m is None:
             continue
@@ -349,7 +353,7 @@ def run(ctx):
         'ShaderStages values are unions of VERTEX|FRAGMENT|COMPUTE (bits < 8)',
     ]
     ctx.bounds = {'helpers': '2 void + 2 value-returning (quick), 3+3 (thorough)', 'entries': '2 (quick) / 3 (thorough)',
-                  'globals': len(GLOBALS), 'nesting contexts': CONTEXTS, 'multi-use family': '3 globals; 5 / 3 / 2 references per function, each symbolic over the globals (one function per run)',
+                  'globals': len(GLOBALS), 'nesting contexts': CONTEXTS, 'three-entry family': 'stages of 3 entry points symbolic (all 27 sequences), each calling a shared void / value helper or not', 'multi-use family': '3 globals; 5 / 3 / 2 references per function, each symbolic over the globals (one function per run)',
                   'symbolic slots per run': '3-4 (quick), 5-6 (thorough)'}
     nh = 2 if quick else 3
     ne = 2 if quick else 3
@@ -364,6 +368,7 @@ def run(ctx):
         plans += [(a, b) for a, b in itertools.combinations(CONTEXTS, 2)][:: 9]
     sequences(ctx, nh, ne, seen)
     multi_use(ctx, seen)
+    three_entries(ctx, seen)
     contexts(ctx, nh, ne, seen, plans)
     # value-returning calls inside expressions + symbolic entry stages
     tpl = Template(nh, [1, 2, 0][:ne], CONTEXTS)
@@ -428,6 +433,28 @@ def contexts(ctx, nh, ne, seen, plans, full=None):
         res = ctx.explore(label, lambda it: it.call('global_shader_stages', [mkref(module)]), assume=info['assume'],
                           anchors=['global_shader_stages', 'update_stages', 'update_stages_blocks', 'naga_stages'])
         check_stage_map(ctx, label, tpl, info, res, seen)
+
+
+def three_entries(ctx, seen):
+    """three entry points whose stages are all symbolic (every sequence, e.g. vertex-fragment-vertex), each calling a shared helper or
+    not: state carried from one entry point to the next (visited sets, summaries) must not depend on the order or repetition of stages"""
+    quick = ctx.tier == 'quick'
+    tpl = Template(1, [0, 1, 0], ['plain'])
+    hv = [f for f in tpl.funcs if f['kind'] == 'v'][0]
+    hr = [f for f in tpl.funcs if f['kind'] == 'r'][0]
+    hv['slots']['use'].value = 'u0'
+    hr['slots']['use'].value = 'tex'
+    sym = [e['ctx']['plain'] for e in tpl.entries]
+    if not quick:
+        sym += [e['slots']['callr'] for e in tpl.entries]
+    else:
+        tpl.entries[1]['slots']['callr'].value = hr['name']
+        sym.append(tpl.entries[2]['slots']['callr'])
+    module, info = build(ctx, tpl, sym, [0, 1, 2])
+    label = 'global_shader_stages/three-entries-symbolic-stages'
+    res = ctx.explore(label, lambda it: it.call('global_shader_stages', [mkref(module)]), assume=info['assume'],
+                      anchors=['global_shader_stages', 'update_stages', 'naga_stages'])
+    check_stage_map(ctx, label, tpl, info, res, seen)
 
 
 def end_to_end(ctx, seen):
